@@ -166,12 +166,22 @@ def _drive(fn, args):
     """Run a child and its successors across restarts; returns the final result."""
     res = run_in_child(fn, args, timeout=RUN_TIMEOUT)
     hops = 0
+    first = None
     while res.get("cont"):
         hops += 1
         if hops > 6:
             raise RuntimeError("too many restarts")
+        if first is None:
+            # durable state of the first restart, for profiles that also load it into a fresh interpreter
+            first = {
+                "items": [(i, blob, res["before"][i]) for i, blob in sorted(res["pool"].items()) if not isinstance(blob, tuple)],
+                "dyn_regs": res["user"].get("dyn_regs", []),
+                "step": res["partial"]["ops"][-1]["i"] if res["partial"]["ops"] else 0,
+            }
         # never mutate: pass the continuation to a fresh child of the pristine image
         res = run_in_child(fn, args[:-1] + (res,), timeout=RUN_TIMEOUT)
+    if first is not None and first["items"]:
+        res["first_restart"] = first
     return res
 
 
